@@ -788,12 +788,16 @@ def run_history(case, base):
             path = pio.tile_path(Pos(*p), format=f)
             Image.from_array(imgs[i].copy()).save(path, format=f)
         reads = []
+        write_errors = []
         keys = set((tuple(p), f) for p, f, _ in case["init"])
         for o in case["ops"]:
             if o[0] == "W":
                 _, p, i, f = o
                 keys.add((tuple(p), f or case["dflt"]))
-                pio.write_image(Pos(*p), Image.from_array(imgs[i].copy()), format=f)
+                try:
+                    pio.write_image(Pos(*p), Image.from_array(imgs[i].copy()), format=f)
+                except Exception as e:  # noqa: every generated write is one the format can hold
+                    write_errors.append([len(reads), list(p), f or case["dflt"], repr(e)[:160]])
             else:
                 _, p, d, mm, f = o
                 keys.add((tuple(p), f or case["dflt"]))
@@ -825,7 +829,7 @@ def run_history(case, base):
                 m = array_mode(a)
                 final.append([list(p), f, ["img", m, a.shape[0], a.shape[1], pack(m, a)]])
     shutil.rmtree(base, ignore_errors=True)
-    return dict(reads=reads, final=final)
+    return dict(reads=reads, final=final, write_errors=write_errors)
 
 
 def tile_all_undefined(entry):
@@ -850,6 +854,8 @@ def history_property(case, obs):
     for p, f, i in case["init"]:
         state[(tuple(p), f)] = i
     why = []
+    for we in obs.get("write_errors", []):
+        why.append(f"write_image of tile {tuple(we[1])} ({we[2]}) raised {we[3]} (whatever the earlier state of the file, the tile must be stored)")
     unknown = False
     k = 0
     for o in case["ops"]:
